@@ -126,14 +126,23 @@ def position_value(p, c, f):
 
 def layout_pass(p, channels, frames, fpb, xyz):
     names = NAMES20[:channels] if p % 2 == 0 else (NAMES20[3:] + NAMES20[:3])[:channels]
-    return {
+    if channels >= 2 and (channels + frames + p) % 4 == 0:
+        # a channel whose name field is blank is still a channel of the pass (and one spelt in lower case is still that name)
+        names = list(names)
+        names[(frames + p) % channels] = '    '
+        names[(frames + p + 1) % channels] = 'a1b '
+    extra = {}
+    if (channels + 2 * frames + p) % 7 == 3:
+        # a description in Latin-1 (a field name with a letter above 0x7f): free text, the reader does not interpret it
+        extra['description'] = b'TROLL \xd8ST 31/2-A \xb0C'.ljust(72).hex()
+    return dict(extra, **{
         'names': names,
         'start': _enc(xyz[0]),
         'stop': _enc(xyz[1]),
         'spacing': _enc(xyz[2]),
         'block_frames': bit_ref.split_frames(frames, fpb),
         'words': [[_enc(position_value(p, c, f)) for f in range(frames)] for c in range(channels)],
-    }
+    })
 
 
 def cover_words(half, start, fixed):
@@ -247,7 +256,8 @@ def check_bytes(model, data):
     fobj = io.BytesIO(data)
     try:
         # the way the tools use a file object: asked "is this a BIT file?" first, then read through the same object
-        if not ReadBIT.is_bit_file(fobj):
+        plain = all(32 <= b < 127 for p in model['passes'][:1] for b in bytes.fromhex(p.get('description', '20')))
+        if not ReadBIT.is_bit_file(fobj) and plain:      # (with other text in the description the answer is not in the statement)
             add({'kind': 'bit_not_recognised'}, 'is_bit_file() is False for a conformant file')
         result = ReadBIT.create_bit_frame_array_from_file(fobj)
     except Exception as err:  # noqa
@@ -260,6 +270,23 @@ def check_bytes(model, data):
         add({'kind': 'bit_read_raises', 'exception': type(err).__name__, 'read': 'second'},
             'a second read raised %s: %s' % (type(err).__name__, err))
         return bad, ('raise2', type(err).__name__)
+    if not plain or h64(data) % 8 == 0:
+        # the by-path twin of the reader gives what the by-file reader gives
+        from mc import seams
+        os.makedirs(seams.SCRATCH, exist_ok=True)
+        path = os.path.join(seams.SCRATCH, 'c13-%d.bit' % os.getpid())
+        try:
+            with open(path, 'wb') as f:
+                f.write(data)
+            by_path = _summary(ReadBIT.create_bit_frame_array_from_path(path))
+            if by_path != fresh:
+                add({'kind': 'bit_read_by_path_differs'}, 'create_bit_frame_array_from_path() gives %r, the same bytes through a file object %r'
+                    % ([x[:2] for x in by_path], [x[:2] for x in fresh]))
+        except Exception as err:  # noqa
+            add({'kind': 'bit_read_raises', 'exception': type(err).__name__, 'read': 'by path'}, 'reading by path raised %s: %s' % (type(err).__name__, err))
+        finally:
+            if os.path.exists(path):
+                os.remove(path)
     if not (_summary(result) == again == fresh):
         add({'kind': 'bit_read_depends_on_the_file_position'},
             'the same bytes read (a) after is_bit_file(), (b) again through the same file object and (c) through a fresh one '
